@@ -63,6 +63,7 @@ def histories(draw):
             "populations": draw(st.integers(1, 2)),
         })
     return {"model": model, "kwargs": kw, "steps": steps,
+            "small_cap": draw(st.booleans()),
             "seed": draw(st.integers(0, 2**31 - 1)),
             "flow": {"ftype": draw(st.sampled_from(["realnvp", "maf"])),
                      "n_blocks": 2, "n_neurons": 8},
@@ -143,8 +144,15 @@ def run_history(case):
                     # max_samples: documented argument of populate (cap on
                     # the proposals of the accumulate-weights loop); a small
                     # value keeps degenerate cells fast
+                    # ... or, without weight accumulation (where the cap
+                    # does not apply), one that is smaller than the number of
+                    # proposals the pool needs
+                    cap = 50_000
+                    if not case["kwargs"].get("accumulate_weights") and \
+                            case.get("small_cap"):
+                        cap = max(1, prop.poolsize // 2)
                     prop.populate(data[0], N=prop.poolsize, plot=False,
-                                  max_samples=50_000)
+                                  max_samples=cap)
                     # hand out a few points like the sampler does
                     for _ in range(5):
                         prop.draw(data[0])
